@@ -306,6 +306,7 @@ def run_case(case):
 
 
 PROP = Property(
+    prelude=True,
     id="C12",
     level="exploration",
     rule=("Hypothesis generates argv lists (empty args, spaces, non-UTF-8), "
